@@ -6,7 +6,7 @@ import e2e_streams as ES
 
 MODULE = "Props.C10"
 THEOREMS = ["C10_adjust_sum", "C10_harvest_positive", "C10_microdata_rows", "adjustLoop_spec", "mapM_length_of_ok",
-            "harvest_all", "C10_harvest_conservation", "C10_forest_harvest_conservation", "C10_bucket_ranges", "C18_forest_tree"]
+            "harvest_all", "C10_harvest_conservation", "C10_harvest_conservation_strong", "C10_forest_harvest_conservation", "C10_bucket_ranges", "C18_forest_tree"]
 PARTIAL = ["T10.b (conservation through the whole harvest: cached sub-trees, refinement, in-place rescaling of shared buckets) is proved for every "
            "well-shaped tree and every RNG stream (C10_harvest_conservation; 'as many ranges as columns': C10_bucket_ranges), over exact "
            "arithmetic and under low_threshold >= 0",
